@@ -23,6 +23,31 @@ def perPixel (coil npix : Nat) (s x : List G) : List (List (G × G)) :=
   let xr := rows coil npix x
   (List.range npix).map fun p => (List.zip sr xr).map fun (a, b) => (a.getD p (0, 0), b.getD p (0, 0))
 
+/-- nested tensor from a shape and row-major data -/
+def buildNT : List Nat → List Int → NT
+  | [], data => .leaf (data.headD 0)
+  | n :: rest, data =>
+    let sz := prod rest
+    .node ((List.range n).map fun i => buildNT rest ((data.drop (i * sz)).take sz))
+
+partial def leavesNT : NT → List Int
+  | .leaf v => [v]
+  | .node xs => xs.flatMap leavesNT
+
+partial def addNT : NT → NT → NT
+  | .leaf a, .leaf b => .leaf (a + b)
+  | .node xs, .node ys => .node (List.zipWith addNT xs ys)
+  | t, _ => t
+
+/-- per-axis actions used by the `along` op: 0 sum of the children, 1 flip, 2 select child 0, 3 cumulative sum -/
+def alongAction (code : Int) : NT → NT
+  | .node (x :: xs) =>
+    if code == 0 then xs.foldl addNT x
+    else if code == 1 then .node (x :: xs).reverse
+    else if code == 2 then x
+    else .node ((xs.foldl (fun (acc : List NT × NT) y => let s := addNT acc.2 y; (acc.1 ++ [s], s)) ([x], x)).1)
+  | t => t
+
 def step (op : String) (gs : List (List Int)) : String :=
   match op, gs with
   | "normstats", [[groups], [b, len], data] =>
@@ -45,6 +70,26 @@ def step (op : String) (gs : List (List Int)) : String :=
     okG [unpairs ((List.zip pp (pairs x)).map fun (sy, xi) => dcPix sy xi)]
   | "persample", [[rank, batchFirst], axes] =>
     okG [[b2i (Red.perSample ⟨"", "", rank.toNat, axes, batchFirst != 0⟩)]]
+  | "primok", [[family, form, sink], args] =>
+    okG [[b2i (Prim.ok ⟨"", family.toNat, "", form.toNat, args, sink.toNat⟩)]]
+  | "permute", [shape, perm, data] =>
+    if data.length ≠ prod (nats shape) then "err BadOp" else
+    okG [leavesNT (permuteNT (nats perm) (buildNT (nats shape) data))]
+  | "along", [[code, d], shape, data] =>
+    if data.length ≠ prod (nats shape) then "err BadOp" else
+    match nats shape with
+    | [] => "err BadOp"
+    | _ :: rest =>
+      -- the tensor as a batch (axis 0 = list of samples), the action along axis d, flattened again
+      let sz := prod rest
+      let batch := (List.range (nats shape).head!).map fun i => buildNT rest ((data.drop (i * sz)).take sz)
+      okG [(batchedAlong (alongAction code) d.toNat batch).flatMap leavesNT]
+  | "mergemap", [[b, c, m], [a, k], data] =>
+    if data.length ≠ b.toNat * c.toNat * m.toNat then "err BadOp" else
+    let xs : List (List (List Int)) := (rows b.toNat (c.toNat * m.toNat) data).map fun smp => rows c.toNat m.toNat smp
+    okG [((multiCoilFold (fun row : List Int => row.map fun v => a * v + k) c.toNat xs).flatten).flatten]
+  | "unmerge", [[b, c], data] =>
+    okG [(unmergeBC b.toNat c.toNat data).flatten, (unmergeCB b.toNat c.toNat data).flatten]
   | _, _ => "err BadOp"
 
 end DirectVerif.Driver.C18
